@@ -280,6 +280,7 @@ namespace sim
       std::size_t delivered = 0;
       std::size_t read_idx = 0;
       std::uint32_t reads_after_eof = 0;
+      std::uint32_t eof_polls = 0;  // consecutive reader calls at end of input without any other event
 
       std::uint64_t run_generation = 0;
 
@@ -304,6 +305,7 @@ namespace sim
          delivered = 0;
          read_idx = 0;
          reads_after_eof = 0;
+         eof_polls = 0;
       }
 
       Event& push( Ev k )
